@@ -40,7 +40,7 @@ type RoundRec struct {
 	ElapsedMs  int64
 }
 
-var kinds = []string{"shared-warm", "shared-cold", "shared-cold", "multi-ctx", "mixed"}
+var kinds = []string{"shared-warm", "shared-cold", "shared-cold", "multi-ctx", "mixed", "decode-fold", "pattern-alias"}
 
 func safeCall(c Call, e *Env) (res string) {
 	defer func() {
@@ -118,6 +118,12 @@ func baseline(p *Program, calls []Call, rec *RoundRec) (base []string, unstable 
 }
 
 func runRound(k int, seed uint64, kind string) *RoundRec {
+	switch kind {
+	case "decode-fold":
+		return runDecodeFold(k, seed)
+	case "pattern-alias":
+		return runPatternAlias(k, seed)
+	}
 	t0 := time.Now()
 	r := common.NewRng(seed)
 	p := genProgram(r.Fork())
@@ -271,6 +277,12 @@ func runExplore(seed uint64, out string, args map[string]string) {
 	for k := 0; k < rounds && (time.Since(t0) < deadline || k < minRounds); k++ {
 		rs := r.Next()
 		kind := kinds[int(rs>>8)%len(kinds)]
+		switch k { // the two targeted kinds always run, even when the machine is slow
+		case 0:
+			kind = "decode-fold"
+		case 1:
+			kind = "pattern-alias"
+		}
 		one(k, rs, kind)
 	}
 }
